@@ -56,15 +56,28 @@ impl Fl {
     pub fn unicode(&self) -> bool {
         self.mode != Mode::Legacy
     }
+    /// Flags as a user builds them: from the JavaScript flag string (`Flags::from(&str)`), never by filling the struct.
+    /// Letters regress documents as ignored (g, y, d) are mixed in deterministically (by `salt`), since
+    /// "other flags are not implemented and are ignored" is part of the documented behaviour.
+    pub fn regress_salted(&self, no_opt: bool, salt: usize) -> regress::Flags {
+        let t = self.text();
+        let s = match salt % 4 {
+            0 => t,
+            1 => format!("g{}", t),
+            2 => format!("{}y", t),
+            _ => {
+                let mut chars: Vec<char> = t.chars().collect();
+                chars.insert(chars.len() / 2, 'd');
+                chars.into_iter().collect()
+            }
+        };
+        let mut f = regress::Flags::from(s.as_str());
+        f.no_opt = no_opt;
+        f
+    }
+
     pub fn regress(&self, no_opt: bool) -> regress::Flags {
-        regress::Flags {
-            icase: self.i,
-            multiline: self.m,
-            dot_all: self.s,
-            no_opt,
-            unicode: self.mode == Mode::U,
-            unicode_sets: self.mode == Mode::V,
-        }
+        self.regress_salted(no_opt, 0)
     }
     /// All 24 flag sets.
     pub fn all() -> Vec<Fl> {
@@ -684,6 +697,9 @@ pub const ALPHABETS: &[&[u32]] = &[
     &[0x3B1, 0x391, 0x1F80, 0x1F88, 0x61],
     &[0x40, 0x60, 0x5B, 0x7B, 0x5C, 0x7C, 0x5D, 0x7D, 0x5E, 0x7E, 0x5F, 0x7F],
     &[0x61, 0x41, 0x5B, 0x7B, 0x7A, 0x5A, 0x60, 0x40],
+    // characters whose UTF-8 encoding contains the bytes 0x80 / 0xBF / 0xC2 next to the code points U+0080, U+00BF
+    &[0x61, 0x80, 0x100, 0x4E00, 0x10000, 0xBF, 0xFF],
+    &[0x7F, 0x80, 0x7FF, 0x800, 0xFFFF, 0x10000],
 ];
 
 pub const PROPS: &[&str] = &[
